@@ -87,7 +87,12 @@ def evaluate(
     stdout as a str.
   """
   # Set up the permission and context.
-  permission = permission or permissions.get_permission()
+  scope_permission = permissions.get_permission()
+  if permission is None:
+    permission = scope_permission
+  elif scope_permission is not None:
+    # An enclosing permission scope can be narrowed but never widened.
+    permission = permission & scope_permission
   ctx = dict(get_context())
   if global_vars:
     ctx.update(global_vars)
